@@ -346,19 +346,21 @@ where
     // with a goal: a few (s, goal) pairs
     let pairs: Vec<(usize, usize)> = (0..n.min(4)).map(|_| (rng.below(n), rng.below(n))).collect();
     f.insert("djg".into(), run(|| json!(pairs.iter().map(|&(s, t)| json!({"s": s, "t": t, "d": distmap_json(&algo::dijkstra(g, fwd[s], Some(fwd[t]), cost), fwd)})).collect::<Vec<_>>())));
-    // astar with goal sets and three kinds of admissible heuristic
+    // astar with goal sets and four kinds of admissible heuristic
     let mut cases = vec![];
-    for _ in 0..n.min(4) {
+    let wide = ag.edges.iter().any(|e| e.2 > 8);
+    for _ in 0..(if wide { 14 } else { n.min(4) }) {
         let s = rng.below(n);
         let mut goals: Vec<usize> = (0..n).filter(|_| rng.chance(1, 3)).collect();
         if goals.is_empty() && rng.chance(4, 5) {
             goals.push(rng.below(n));
         }
         let exact = abstract_dist_to(ag, &goals);
-        let kind = rng.below(3);
+        let kind = if wide { 2 + rng.below(2) } else { rng.below(4) };
         let h: Vec<i64> = (0..n).map(|v| match kind {
             0 => 0,
             1 => if exact[v] >= INF { 7 } else { exact[v] },
+            3 => if exact[v] >= INF { 7 } else if rng.chance(1, 2) { exact[v] } else { 0 },     // exact on some nodes, blind on others
             _ => if exact[v] >= INF { rng.below(9) as i64 } else { rng.range(0, exact[v]) }, // admissible, inconsistent
         }).collect();
         cases.push((s, goals, h));
@@ -1248,6 +1250,15 @@ pub fn sweep(prop: &str, seed: u64, exhaustive_n: usize, random: usize, nmax: us
                 let n = 300;
                 let edges = (1..n).map(|i| (if shape == 0 { 0 } else { i - 1 }, i, 1 + (i as i64 * 7) % 5)).collect();
                 f(out, &AG { n, directed, edges }, &mut rng);
+            }
+        }
+        if prop == "C10" {
+            // wide weight ranges and many heuristics per graph: the order in which A* expands nodes then depends on
+            // the estimates, not only on the path costs
+            for _ in 0..random {
+                let n = 4 + rng.below(nmax.saturating_sub(3).max(1));
+                let ag = random_ag(&mut rng, n, directed, 1, 30, false, true);
+                f(out, &ag, &mut rng);
             }
         }
         if prop == "C09" || prop == "C12" {
